@@ -769,12 +769,13 @@ def run_case(case, obs):
             re_amp = max(b["re_amp"] for b in F[i]["blocks"])
             a_ = wfac[i] * (1.0 + F[i]["mmax"] * re_amp / F[i]["xmax"])
             amp.append(a_)
-        if cls in SINGLE_ROT:
-            svb = np.linalg.svd(F[0]["Xp"], compute_uv=False)
-            amp[0] *= 10.0 * float(svb[0] / max(svb[min(k, len(svb)) - 1], np.finfo(float).tiny))
-        if cls in CROSS_ROT:
-            svb = np.linalg.svd(F[0]["Xp"].conj().T @ F[1]["Xp"], compute_uv=False)
-            amp = [a_ * 10.0 * float(svb[0] / max(svb[min(k, len(svb)) - 1], np.finfo(float).tiny)) for a_ in amp]
+        if rot:
+            # the rotator's transform divides by the singular values of the rotated modes
+            svb = np.linalg.svd(F[0]["Xp"] if cls in SINGLE_ROT else F[0]["Xp"].conj().T @ F[1]["Xp"], compute_uv=False)
+            spread = float(svb[0] / max(svb[min(k, len(svb)) - 1], np.finfo(float).tiny))
+            if spread > 1e6:
+                obs.ambiguous(f"rotated set contains a (near-)null mode: sigma_1/sigma_k = {spread:.1e}")
+            amp = [a_ * 10.0 * spread for a_ in amp]
         tags2 = dict(op="transform(inverse_transform(s))", symptom="roundtrip_differs")
         s_size1 = bool(any(len(v) == 1 for v in s_co.values()))
         sz = [bool(ds_f1[i] or (ds_i[i] and s_size1)) for i in range(nf)]
